@@ -6,7 +6,8 @@ EXPLANATION = ("Sibling cross-checking of the two subclasses of the wrapper base
                "(MOSEK is not installed, the test-suite never executes it): same interface with compatible arities and initialised attributes (R-IFACE), "
                "same tracked-list discipline and alignment (R-TRACK), same sense mapping (R-SENSE), one dual sign transformation (R-SIGN), row-index "
                "bookkeeping (R-ROWIDX), provenance of matrix-variable indices (R-BARIDX) and of the objective slot (R-OBJSLOT), same heuristic constraint "
-               "and objective (R-HEUR), LMI encodings (R-LMIENC), sparse translator (R-TRANSL), objective sense (R-OBJSENSE).")
+               "and objective (R-HEUR), LMI encodings (R-LMIENC), sparse translator (R-TRANSL), objective sense (R-OBJSENSE)."
+               ' Also: MOSEK row data (Gram matrix with weight 1 on bar-variable 0, F weights on their columns), variable counts consistent with generate_problem, packed-triangle unpacking unrolled for sizes 1..4, row-index arrays not narrowed to int8.')
 TRUSTED = ["CPython ast", "MOSEK Task API facts: bar-variables and rows are numbered in append order; sparse symmetric matrices are lower-triangular; "
            "gety / getbarsj return the multipliers of rows / matrix variables"]
 ASSUMPTIONS = ["equality of optimal values / instances as numbers is not decided"]
